@@ -17,7 +17,7 @@ import (
 // Pkg is a drawn package.
 type Pkg struct {
 	Files  map[string]string
-	Kind   string   // gosub | collections | errwrap | overload | interp | class | corpus
+	Kind   string   // gosub | collections | errwrap | overload | interp | class | declsoup | corpus
 	Ops    []string // near-miss operators applied
 	Broken bool     // token-level damage applied (may not parse)
 }
@@ -39,7 +39,9 @@ func (p Pkg) Key() string {
 // Base draws an unmutated package.
 func Base(t *rapid.T) Pkg {
 	g := &xsugar.G{T: t, Flags: map[string]bool{}}
-	switch rapid.IntRange(0, 6).Draw(t, "basekind") {
+	switch rapid.IntRange(0, 8).Draw(t, "basekind") {
+	case 7, 8:
+		return DeclSoup(t)
 	case 0, 1:
 		return Pkg{Files: map[string]string{"bar.xgo": gosub.Gen().Draw(t, "gosub").Source()}, Kind: "gosub"}
 	case 2:
